@@ -11,6 +11,8 @@ import (
 	"sync"
 	"sync/atomic"
 	"time"
+	"context"
+	"syscall"
 )
 
 // RTMP client / server endpoints built on the reference chunk codec and AMF0 codec.
@@ -490,6 +492,9 @@ type StubBehaviour struct {
 	PlayInterval    time.Duration
 	DieAfterMsgs    int // for play: close after sending this many messages (0 = keep open)
 	ErrorOnPublish  bool
+	// StallAfterPublish: answer the publish command, then never read again (socket stays open): the
+	// peer's writes fill the kernel buffers and block until its write timeout closes the session
+	StallAfterPublish time.Duration
 }
 
 type StubSession struct {
@@ -538,6 +543,24 @@ type RtmpStub struct {
 
 func NewRtmpStub(script func(n int) StubBehaviour) (*RtmpStub, error) {
 	ln, err := net.Listen("tcp", "127.0.0.1:0")
+	if err != nil {
+		return nil, err
+	}
+	st := &RtmpStub{Ln: ln, Addr: ln.Addr().String(), Script: script}
+	go st.acceptLoop()
+	return st, nil
+}
+
+// NewRtmpStubRcvBuf is NewRtmpStub with a fixed (small) receive buffer on every accepted connection:
+// a peer that never reads then shows a zero window after a few kilobytes instead of after the
+// megabytes the kernel's receive-buffer auto-tuning would absorb.
+func NewRtmpStubRcvBuf(script func(n int) StubBehaviour, rcvbuf int) (*RtmpStub, error) {
+	lc := net.ListenConfig{Control: func(network, address string, c syscall.RawConn) error {
+		var e error
+		c.Control(func(fd uintptr) { e = syscall.SetsockoptInt(int(fd), syscall.SOL_SOCKET, syscall.SO_RCVBUF, rcvbuf) })
+		return e
+	}}
+	ln, err := lc.Listen(context.Background(), "tcp", "127.0.0.1:0")
 	if err != nil {
 		return nil, err
 	}
@@ -674,6 +697,12 @@ func (st *RtmpStub) serve(s *StubSession, b StubBehaviour) {
 					if !st.sendStatus(s, vs[0].Str, b) {
 						return
 					}
+				}
+				if b.StallAfterPublish > 0 && vs[0].Str == "publish" {
+					// stop reading; notice the peer closing by a zero-length deadline poll is impossible without
+					// reading, so just hold the socket for the given time
+					time.Sleep(b.StallAfterPublish)
+					return
 				}
 			}
 		}
